@@ -208,6 +208,13 @@ class Interp(object):
         r = s.check()
         m1 = s.model()
         v1 = m1.eval(e, model_completion=True)
+        if v.sec and kind == "branch condition" and any(where.startswith(f + ":") for f in self.declassified):
+            # explicitly public result (success / failure status computed from the secret): the branch is followed on one
+            # side only; everything executed before it has been checked
+            self.solver_time += time.time() - t0
+            val = v1.as_long()
+            self.obs_log.append((kind, where, "declassified status branch, followed with value %d" % val))
+            return val
         s.add(e != v1)
         r2 = s.check()
         self.solver_time += time.time() - t0
@@ -218,6 +225,12 @@ class Interp(object):
         if r2 == z3.unknown:
             raise Unsupported("solver timeout on %s at %s" % (kind, where))
         m2 = s.model()
+        if v.sec and kind == "branch condition" and any(where.startswith(f + ":") for f in self.declassified):
+            # explicitly public result (success / failure status computed from the secret): the branch is followed on the
+            # first model's side only; everything executed before it has been checked
+            val = v1.as_long()
+            self.obs_log.append((kind, where, "declassified status branch, followed with value %d" % val))
+            return val
         if v.sec:
             def show(m):
                 return {str(d): m[d].as_long() for d in m.decls()}
